@@ -76,7 +76,7 @@ impl Property for C20 {
     }
 
     fn cases(tier: Tier) -> u64 {
-        tier.pick(40_000, 4_000_000)
+        tier.pick(400_000, 4_000_000)
     }
 
     fn exhaustive_spaces(_tier: Tier) -> Vec<String> {
